@@ -1,3 +1,591 @@
 package main
 
-func c10proj(c *Ctx) {}
+// C10 (projection side): a Transformer is a function of its arguments only.
+//
+// R1a no rebinding of a captured variable inside a Transformer closure.
+// R1b no argument-dependent value stored into a persistent location.
+// R1c every other store to a spatial reference on the per-call path is
+//     idempotent: lazy initialisation, normalising overwrite, or save/restore.
+// R2  a constant index into the coordinate slice needs a length guard.
+
+import (
+	"fmt"
+	"go/ast"
+	"go/token"
+	"go/types"
+	"sort"
+
+	"golang.org/x/tools/go/ssa"
+)
+
+func c10proj(c *Ctx) {
+	c.Rule("C10.R1", "no per-call state survives in a Transformer: (a) a closure that becomes a Transformer never assigns to a captured variable; (b) never stores a value that depends on its arguments into a captured or package-level location; (c) every store to a spatial reference made by the constructors/helpers it calls is a lazy initialisation guarded by an 'unset' test of the same field, a normalising overwrite from constants and fields that are stable on the per-call path, or a saved-and-restored temporary")
+	c.Rule("C10.R2", "an index expression s[k] with constant k on the coordinate slice is dominated by a guard implying len(s) > k, or k is below the length of the literal every caller passes")
+	p := c.P.Pkg("proj")
+	if p == nil {
+		c.Unk("C10.R1", "proj", token.NoPos, "package not loaded")
+		return
+	}
+	info := p.TypesInfo
+	nt := c.P.Method("proj", "SR", "NewTransform")
+	if c.P.Decl(nt) == nil {
+		c.Unk("C10.R1", "proj.(*SR).NewTransform", token.NoPos, "API anchor does not resolve")
+		return
+	}
+	reg := projRegistry(c)
+	type clo struct {
+		fn   *ssa.Function
+		name string
+	}
+	var clos []clo
+	for i, f := range closuresOf(c, c.P.SSAFunc(nt), 0, 0) {
+		clos = append(clos, clo{f, fmt.Sprintf("proj.(*SR).NewTransform$%d", i+1)})
+	}
+	seen := map[*ssa.Function]bool{}
+	for _, ctor := range reg.ctors {
+		for idx, role := range []string{"forward", "inverse"} {
+			for _, f := range closuresOf(c, c.P.SSAFunc(ctor), idx, 0) {
+				if !seen[f] {
+					seen[f] = true
+					clos = append(clos, clo{f, c.P.FuncName(ctor) + "#" + role})
+				}
+			}
+		}
+	}
+	if len(clos) < 10 {
+		c.Unk("C10.R1", "proj#transformer-closures", token.NoPos, "only %d Transformer closures found", len(clos))
+	}
+	for _, cl := range clos {
+		var rebind, leak *ssa.Store
+		d := newDepAn()
+		for _, b := range cl.fn.Blocks {
+			for _, in := range b.Instrs {
+				st, ok := in.(*ssa.Store)
+				if !ok {
+					continue
+				}
+				if _, isFV := st.Addr.(*ssa.FreeVar); isFV && rebind == nil {
+					rebind = st
+					continue
+				}
+				root := rootAddr(st.Addr)
+				persistent := false
+				switch r := root.(type) {
+				case *ssa.Global:
+					persistent = true
+				case *ssa.UnOp:
+					// *freevar (captured pointer) → field
+					if _, isFV := r.X.(*ssa.FreeVar); isFV && r.Op == token.MUL {
+						persistent = true
+					}
+				case *ssa.FreeVar:
+					persistent = true
+				}
+				if persistent && len(d.deps(st.Val).params) > 0 && leak == nil {
+					leak = st
+				}
+			}
+		}
+		if rebind != nil {
+			fv := rebind.Addr.(*ssa.FreeVar)
+			c.Bad("C10.R1", cl.name+"#a-rebinding", rebind.Pos(), "the Transformer closure assigns to its captured variable `%s`: the first call changes what every later call (and every interleaved use of the same closure) sees, so the same input no longer gives the same output", fv.Name())
+		} else {
+			c.OK("C10.R1", cl.name+"#a-rebinding", cl.fn.Pos(), "no captured variable is assigned")
+		}
+		if leak != nil {
+			c.Bad("C10.R1", cl.name+"#b-argument-leak", leak.Pos(), "a value computed from the call's arguments is stored into a captured or package-level location: the next call can observe this call's coordinates")
+		} else {
+			c.OK("C10.R1", cl.name+"#b-argument-leak", cl.fn.Pos(), "no argument-dependent store to captured or package-level state")
+		}
+	}
+	c10fieldStores(c, p, reg)
+	c10indexGuard(c, p)
+	_ = info
+}
+
+// ---------------------------------------------------------------- R1c
+
+func c10fieldStores(c *Ctx, p *pkgT, reg *projReg) {
+	info := p.TypesInfo
+	// per-call functions: the constructors, plus package functions called from the NewTransform closure
+	// (statically), transitively.
+	nt := c.P.Method("proj", "SR", "NewTransform")
+	perCall := map[*types.Func]bool{}
+	for _, ctor := range reg.ctors {
+		perCall[ctor] = true
+	}
+	var visit func(n ast.Node)
+	visit = func(n ast.Node) {
+		ast.Inspect(n, func(m ast.Node) bool {
+			if call, ok := m.(*ast.CallExpr); ok {
+				if f := callee(info, call); f != nil && c.P.DeclPkg(f) == p && !perCall[f] && f != nt {
+					// Parse / addDef run once per definition, not per call; Transformers dispatches to the constructors
+					perCall[f] = true
+					visit(c.P.Decl(f).Body)
+				}
+			}
+			return true
+		})
+	}
+	for _, lit := range funcLits(c.P.Decl(nt).Body) {
+		visit(lit.Body)
+	}
+	for _, ctor := range reg.ctors {
+		visit(c.P.Decl(ctor).Body)
+	}
+	// parsing is reached only through Parse("WGS84"), which returns the registered *SR without parsing
+	parse := c.P.Func("proj", "Parse")
+	parseOnly := map[*types.Func]bool{}
+	if parse != nil {
+		var pv func(f *types.Func)
+		pv = func(f *types.Func) {
+			if parseOnly[f] || c.P.Decl(f) == nil {
+				return
+			}
+			parseOnly[f] = true
+			ast.Inspect(c.P.Decl(f).Body, func(m ast.Node) bool {
+				if call, ok := m.(*ast.CallExpr); ok {
+					if g := callee(info, call); g != nil && c.P.DeclPkg(g) == p {
+						pv(g)
+					}
+				}
+				return true
+			})
+		}
+		pv(parse)
+	}
+	// fields written anywhere on the per-call path (for stability)
+	type storeSite struct {
+		fn    *types.Func
+		as    ast.Stmt
+		lhs   ast.Expr
+		rhs   ast.Expr
+		field *types.Var
+		recvT *types.Named
+		tok   token.Token
+	}
+	var sites []storeSite
+	structField := func(e ast.Expr) (*types.Var, *types.Named) {
+		sel, ok := unparen(e).(*ast.SelectorExpr)
+		if !ok {
+			return nil, nil
+		}
+		s := info.Selections[sel]
+		if s == nil {
+			return nil, nil
+		}
+		v, ok := s.Obj().(*types.Var)
+		if !ok || !v.IsField() {
+			return nil, nil
+		}
+		// only through pointers (persistent objects): *SR, *datum
+		if _, isPtr := info.TypeOf(sel.X).Underlying().(*types.Pointer); !isPtr {
+			return nil, nil
+		}
+		return v, named(s.Recv())
+	}
+	var fns []*types.Func
+	for f := range perCall {
+		if parseOnly[f] && f != parse {
+			continue
+		}
+		if f == parse {
+			continue
+		}
+		fns = append(fns, f)
+	}
+	sort.Slice(fns, func(i, j int) bool { return c.P.Decl(fns[i]).Pos() < c.P.Decl(fns[j]).Pos() })
+	for _, f := range fns {
+		fd := c.P.Decl(f)
+		// stores inside nested closures belong to the closures (checked by R1a/R1b)
+		inspectNoLits(fd.Body, func(n ast.Node) bool {
+			switch x := n.(type) {
+			case *ast.AssignStmt:
+				for i, l := range x.Lhs {
+					if fv, rt := structField(l); fv != nil {
+						var rhs ast.Expr
+						if len(x.Rhs) == len(x.Lhs) {
+							rhs = x.Rhs[i]
+						}
+						sites = append(sites, storeSite{f, x, l, rhs, fv, rt, x.Tok})
+					}
+				}
+			case *ast.IncDecStmt:
+				if fv, rt := structField(x.X); fv != nil {
+					sites = append(sites, storeSite{f, x, x.X, nil, fv, rt, x.Tok})
+				}
+			}
+			return true
+		})
+	}
+	// fields written by a function and by the package functions it calls: a constructor only
+	// rewrites its own spatial reference, so stability is judged per constructor chain
+	calls := map[*types.Func][]*types.Func{}
+	for _, f := range fns {
+		ast.Inspect(c.P.Decl(f).Body, func(m ast.Node) bool {
+			if call, ok := m.(*ast.CallExpr); ok {
+				if g := callee(info, call); g != nil && c.P.DeclPkg(g) == p && g != f {
+					calls[f] = append(calls[f], g)
+				}
+			}
+			return true
+		})
+	}
+	writtenBy := func(f *types.Func) map[*types.Var]bool {
+		out := map[*types.Var]bool{}
+		seen := map[*types.Func]bool{}
+		var rec func(g *types.Func)
+		rec = func(g *types.Func) {
+			if seen[g] {
+				return
+			}
+			seen[g] = true
+			for _, s := range sites {
+				if s.fn == g {
+					out[s.field] = true
+				}
+			}
+			for _, h := range calls[g] {
+				rec(h)
+			}
+		}
+		rec(f)
+		// callers that write before delegating (UTM → TMerc)
+		for caller, cs := range calls {
+			for _, h := range cs {
+				if h == f {
+					for _, s := range sites {
+						if s.fn == caller {
+							out[s.field] = true
+						}
+					}
+				}
+			}
+		}
+		return out
+	}
+	counts := map[string]int{}
+	for _, s := range sites {
+		fd := c.P.Decl(s.fn)
+		written := writtenBy(s.fn)
+		cons := fmt.Sprintf("%s#c-store(%s.%s)", c.P.FuncName(s.fn), s.recvT.Obj().Name(), s.field.Name())
+		counts[cons]++
+		if counts[cons] > 1 {
+			cons = fmt.Sprintf("%s#%d", cons, counts[cons])
+		}
+		// (a) lazy init: enclosing if tests IsNaN(lhs) / lhs == nil / "" / 0
+		lazy := false
+		for _, anc := range enclosing(fd.Body, s.as) {
+			is, ok := anc.(*ast.IfStmt)
+			if !ok || !containsNode(is.Body, s.as) {
+				continue
+			}
+			for _, at := range conjuncts(is.Cond, true) {
+				if !at.Truth {
+					continue
+				}
+				e := unparen(at.E)
+				if call, ok := e.(*ast.CallExpr); ok && isFuncIn(callee(info, call), "math", "IsNaN") && len(call.Args) == 1 && sameExpr(info, call.Args[0], s.lhs) {
+					lazy = true
+				}
+				if b, ok := e.(*ast.BinaryExpr); ok && b.Op == token.EQL && sameExpr(info, b.X, s.lhs) {
+					if isNilConst(info, b.Y) {
+						lazy = true
+					} else if v := constOf(info, b.Y); v != nil && (v.String() == "0" || v.String() == `""`) {
+						lazy = true
+					}
+				}
+			}
+		}
+		// value must not depend on mutable per-call state
+		stableRHS := func(rhs ast.Expr) (bool, string) {
+			if rhs == nil {
+				return false, "the new value is computed from the old one"
+			}
+			why := ""
+			sc := newFnScope(info, fd.Body)
+			var check func(e ast.Node, depth int)
+			check = func(e ast.Node, depth int) {
+				ast.Inspect(e, func(m ast.Node) bool {
+					switch y := m.(type) {
+					case *ast.SelectorExpr:
+						if fv, _ := structField(y); fv != nil {
+							if fv == s.field && sameExpr(info, y, s.lhs) {
+								why = "the new value depends on the field's own previous value"
+							} else if written[fv] && !precededByStableStore(c, info, fd, s.as, y) {
+								why = "the new value reads " + fv.Name() + ", which is itself rewritten on the per-call path"
+							}
+						}
+					case *ast.Ident:
+						if o := objOf(info, y); o != nil && depth < 4 {
+							if _, isVar := o.(*types.Var); isVar {
+								for _, d := range sc.defs[o] {
+									if d != nil {
+										check(d, depth+1)
+									}
+								}
+							}
+						}
+					}
+					return why == ""
+				})
+			}
+			check(rhs, 0)
+			return why == "", why
+		}
+		switch {
+		case s.tok != token.ASSIGN && s.tok != token.DEFINE:
+			// op-assign / ++: read-modify-write; acceptable only as a save/restore temporary (none today)
+			c.Bad("C10.R1", cons, s.as.Pos(), "`%s` updates %s.%s from its own previous value on the per-call path: every call changes what the next call computes", src(s.as), s.recvT.Obj().Name(), s.field.Name())
+		case lazy:
+			if ok, why := stableRHS(s.rhs); ok {
+				c.OK("C10.R1", cons, s.as.Pos(), "lazy initialisation guarded by an unset test of the same field")
+			} else {
+				c.Bad("C10.R1", cons, s.as.Pos(), "lazy initialisation of %s, but %s", s.field.Name(), why)
+			}
+		case c10saveRestore(info, fd, s.as, s.lhs):
+			c.OK("C10.R1", cons, s.as.Pos(), "temporary overwrite, restored from a saved copy before every success return (paths that return an error skip the restore; such a datum fails on every later call as well)")
+		default:
+			if ok, why := stableRHS(s.rhs); ok {
+				c.OK("C10.R1", cons, s.as.Pos(), "normalising overwrite from constants and stable fields")
+			} else {
+				c.Bad("C10.R1", cons, s.as.Pos(), "`%s` is executed on every transformer call and is not idempotent: %s", src(s.as), why)
+			}
+		}
+	}
+	if len(sites) < 20 {
+		c.Unk("C10.R1", "proj#c-stores", token.NoPos, "only %d stores to spatial-reference fields found on the per-call path (expected the constructors' default fills)", len(sites))
+	}
+}
+
+// precededByStableStore: the read `sel` of a rewritten field happens after a store to the same
+// field earlier in this function (so it sees that store's value, not history).
+func precededByStableStore(c *Ctx, info *types.Info, fd *ast.FuncDecl, at ast.Stmt, sel *ast.SelectorExpr) bool {
+	found := false
+	ast.Inspect(fd.Body, func(n ast.Node) bool {
+		as, ok := n.(*ast.AssignStmt)
+		if !ok || as.Pos() >= at.Pos() {
+			return true
+		}
+		for _, l := range as.Lhs {
+			if sameExpr(info, l, sel) && (as.Tok == token.ASSIGN) {
+				found = true
+			}
+		}
+		return true
+	})
+	return found
+}
+
+// c10saveRestore: `lhs = …` is a temporary: the function saved `v := lhs` earlier and
+// assigns `lhs = v` later at top level of the body.
+func c10saveRestore(info *types.Info, fd *ast.FuncDecl, at ast.Stmt, lhs ast.Expr) bool {
+	sc := newFnScope(info, fd.Body)
+	// restore: a later top-level statement lhs = v where v's single def is lhs
+	for _, st := range fd.Body.List {
+		as, ok := st.(*ast.AssignStmt)
+		if !ok || len(as.Lhs) != 1 || len(as.Rhs) != 1 || as.Pos() <= at.Pos() && as != at {
+			continue
+		}
+		if !sameExpr(info, as.Lhs[0], lhs) {
+			continue
+		}
+		o := objOf(info, as.Rhs[0])
+		if o == nil {
+			continue
+		}
+		if d := sc.singleDef(o); d != nil && sameExpr(info, d, lhs) {
+			// the restore itself, or a store followed by it
+			return true
+		}
+	}
+	return false
+}
+
+// ---------------------------------------------------------------- R2
+
+func c10indexGuard(c *Ctx, p *pkgT) {
+	info := p.TypesInfo
+	// the axis adjustment: package function taking (*SR, bool, []float64)
+	var target *types.Func
+	for _, fn := range c.P.RepoFuncs() {
+		if c.P.DeclPkg(fn) != p {
+			continue
+		}
+		sig := fn.Type().(*types.Signature)
+		if sig.Recv() == nil && sig.Params().Len() == 3 {
+			if _, ok := sig.Params().At(2).Type().Underlying().(*types.Slice); ok && isNamed(sig.Params().At(0).Type(), modPath+"/proj", "SR") {
+				target = fn
+			}
+		}
+	}
+	if target == nil {
+		c.Unk("C10.R2", "proj#axis-adjustment", token.NoPos, "the axis adjustment function was not found")
+		return
+	}
+	fd := c.P.Decl(target)
+	ps := paramVars(info, fd.Type)
+	pt := ps[2]
+	// minimum literal length over callers
+	minLen := int64(1 << 30)
+	for _, fn := range c.P.RepoFuncs() {
+		if c.P.DeclPkg(fn) != p {
+			continue
+		}
+		gfd := c.P.Decl(fn)
+		sc := newFnScope(info, gfd.Body)
+		ast.Inspect(gfd.Body, func(n ast.Node) bool {
+			call, ok := n.(*ast.CallExpr)
+			if !ok || callee(info, call) != target {
+				return true
+			}
+			o := objOf(info, call.Args[2])
+			l := int64(0)
+			if o != nil {
+				for _, d := range sc.defs[o] {
+					if lit, ok := unparen(d).(*ast.CompositeLit); ok && d != nil {
+						if l == 0 || int64(len(lit.Elts)) < l {
+							l = int64(len(lit.Elts))
+						}
+					}
+				}
+			}
+			if l < minLen {
+				minLen = l
+			}
+			return true
+		})
+	}
+	if minLen == 1<<30 {
+		minLen = 0
+	}
+	type acc struct {
+		ix *ast.IndexExpr
+		k  int64
+		ok bool
+	}
+	accs := map[*ast.IndexExpr]*acc{}
+	scan := func(n ast.Node, s Facts) {
+		ast.Inspect(n, func(m ast.Node) bool {
+			if _, isLit := m.(*ast.FuncLit); isLit {
+				return false
+			}
+			ix, ok := m.(*ast.IndexExpr)
+			if !ok || objOf(info, ix.X) != pt {
+				return true
+			}
+			k, isConst := constInt(info, ix.Index)
+			if !isConst {
+				return true
+			}
+			a := accs[ix]
+			if a == nil {
+				a = &acc{ix: ix, k: k, ok: true}
+				accs[ix] = a
+			}
+			guarded := k < minLen
+			for f := range s {
+				var g int64
+				if _, err := fmt.Sscanf(f, "len>=%d", &g); err == nil && g > k {
+					guarded = true
+				}
+			}
+			if !guarded {
+				a.ok = false
+			}
+			return true
+		})
+	}
+	cl := &FactsClient{}
+	cl.OnStmt = func(n ast.Node, s Facts) Facts {
+		if rs, ok := n.(*ast.RangeStmt); ok {
+			scan(rs.X, s)
+			return s
+		}
+		scan(n, s)
+		if as, ok := n.(*ast.AssignStmt); ok {
+			for _, l := range as.Lhs {
+				if objOf(info, l) == pt {
+					for f := range s {
+						delete(s, f)
+					}
+				}
+			}
+		}
+		return s
+	}
+	cl.OnBranch = func(cond ast.Expr, truth bool, s Facts) Facts {
+		scan(cond, s)
+		for _, at := range conjuncts(cond, truth) {
+			b, ok := unparen(at.E).(*ast.BinaryExpr)
+			if !ok {
+				continue
+			}
+			la := lenArg(info, b.X)
+			k, kok := constInt(info, b.Y)
+			if la == nil || !kok || objOf(info, la) != pt {
+				continue
+			}
+			op := b.Op
+			if !at.Truth {
+				switch op {
+				case token.LSS:
+					op = token.GEQ
+				case token.LEQ:
+					op = token.GTR
+				case token.GTR:
+					op = token.LEQ
+				case token.GEQ:
+					op = token.LSS
+				case token.EQL:
+					op = token.NEQ
+				case token.NEQ:
+					op = token.EQL
+				}
+			}
+			switch op {
+			case token.GEQ:
+				s[fmt.Sprintf("len>=%d", k)] = true
+			case token.GTR:
+				s[fmt.Sprintf("len>=%d", k+1)] = true
+			case token.EQL:
+				s[fmt.Sprintf("len>=%d", k)] = true
+			}
+		}
+		return s
+	}
+	cl.OnReturn = func(r *ast.ReturnStmt, s Facts) {
+		if r != nil {
+			for _, e := range r.Results {
+				scan(e, s)
+			}
+		}
+	}
+	fl := &Flow[Facts]{C: cl, Info: info}
+	fl.Run(fd.Body, Facts{})
+	if len(fl.Unsupported) > 0 {
+		c.Unk("C10.R2", c.P.FuncName(target), fl.Unsupported[0].Pos(), "unsupported control flow")
+		return
+	}
+	var list []*acc
+	for _, a := range accs {
+		list = append(list, a)
+	}
+	sort.Slice(list, func(i, j int) bool { return list[i].ix.Pos() < list[j].ix.Pos() })
+	perK := map[int64]int{}
+	for _, a := range list {
+		perK[a.k]++
+		cons := fmt.Sprintf("%s#%s[%d]", c.P.FuncName(target), pt.Name(), a.k)
+		if perK[a.k] > 1 {
+			cons = fmt.Sprintf("%s#%d", cons, perK[a.k])
+		}
+		if a.ok {
+			c.OK("C10.R2", cons, a.ix.Pos(), "index %d is below the callers' literal length (%d) or behind a length guard", a.k, minLen)
+		} else {
+			c.Bad("C10.R2", cons, a.ix.Pos(), "`%s` is reached on a path with no guard implying len(%s) > %d, and callers pass a %d-element slice: a spatial reference with a non-default axis order makes every transformer call panic", src(a.ix), pt.Name(), a.k, minLen)
+		}
+	}
+	if len(list) == 0 {
+		c.Unk("C10.R2", c.P.FuncName(target), fd.Pos(), "no constant index into the coordinate slice found")
+	}
+}
